@@ -85,3 +85,10 @@ Theorem backup_leaves_source st st1 r :
 Proof. apply ReadsPreserve.log_stat_preserves. Qed.
 
 End BackupProofs.
+
+(* the skip rule of the copy (a file of the target whose size and mtime match is not copied again): on files that
+   have only been appended to, equal size means equal content *)
+Lemma skip_rule_safe {A} (old new tl : list A) : new = old ++ tl -> length old = length new -> old = new.
+Proof.
+  intros -> Hl. rewrite app_length in Hl. destruct tl; [now rewrite app_nil_r|]. cbn in Hl. lia.
+Qed.
